@@ -155,6 +155,14 @@ AReformat      == Same("ok")       \* also no_reformatting_when_finished, value_
 \* a with-block left by an exception (__exit__ with an exception argument) writes nothing: the document
 \* keeps what it held; the list object keeps its edits
 AAbort         == Same("ok")
+\* a call that hands in a text which is NOT a single item of the interpretation (text after an inner
+\* separator, surrounding blanks, the empty string, a bare newline ...) or whose caller-supplied object
+\* fails (a formatter that raises) is REFUSED: some exception r comes out and nothing changes (error
+\* atomicity) -- the history then carries on from the same list
+ARefuse(r)     == r # "ok" /\ Same(r)
+\* the SAME list object is entered again (a view is a re-usable context manager): it keeps its own list,
+\* whatever it wrote or did not write before; a write-back leaves the token list ending in the final newline
+AReenter       == vals' = vals /\ tail' \in {tail, "nl"} /\ res' = "ok"
 \* leaving the with-block may refuse to write (ValueError, document untouched) only when the
 \* field would have no value or would end in a comment line
 CloseMayRefuse == vals = <<>> \/ tail = "cmt"
